@@ -23,7 +23,8 @@ CO_ERR ref_reset(CO_OBJ *o, CO_NODE *n, uint32_t p) { return CO_TDOMAIN->Reset(o
 const CO_OBJ_TYPE RefType = {ref_size, ref_init, ref_read, ref_write, ref_reset};
 
 void case_impl(Ctx &c, bool clientrec, bool refusing = false) {
-  Sim s(c); World w(s);
+  const size_t tape0 = c.t.pos; uint32_t refsize = 0; g_ref = Refuser();
+  auto build = [&](Sim &s, World &w) {
   s.nodeid = (uint8_t)(1 + c.t.below(127));
   w.mandatory(false);     // 1200h/1201h read-only: junk must not be able to switch a server off legitimately
   SplitMix iv(c.t.u16());
@@ -41,8 +42,6 @@ void case_impl(Ctx &c, bool clientrec, bool refusing = false) {
     s.add(CO_KEY(0x1280 + k, 2, CO_OBJ_____RW), CO_TSDO_ID, (CO_DATA)s.var<uint32_t>("128x:2", 0x580u + 0x20 + k));
     s.add(CO_KEY(0x1280 + k, 3, CO_OBJ_____RW), CO_TUNSIGNED8, (CO_DATA)s.var<uint8_t>("128x:3", (uint8_t)(0x20 + k)));
   }
-  int recwrites = 0;
-  uint32_t refsize = 0; g_ref = Refuser();
   if (refusing) {
     refsize = c.t.coin() ? 5 + c.t.below(40) : 880 + c.t.below(900);
     TObj o; o.idx = 0x2300; o.sub = 0; o.kind = TObj::OTHER; o.size = refsize; CO_OBJ_DOM *d = s.domain(refsize, "refusing-domain"); o.store = d->Start;
@@ -50,6 +49,8 @@ void case_impl(Ctx &c, bool clientrec, bool refusing = false) {
     s.add(CO_KEY(0x2300, 0, CO_OBJ_____RW), &RefType, (CO_DATA)d); w.objs.push_back(o);
     { uint8_t *h0 = s.alloc(1, "1003:0"); s.add(CO_KEY(0x1003, 0, CO_OBJ_____RW), CO_TEMCY_HIST, (CO_DATA)h0); for (int i = 1; i <= 2; i++) s.add(CO_KEY(0x1003, i, CO_OBJ_____R_), CO_TEMCY_HIST, (CO_DATA)s.alloc(4, "1003:n")); }
   }
+  };
+  Sim s(c); World w(s); build(s, w); int recwrites = 0;
   int refusals = 0;
   w.finish();
   std::vector<std::pair<uint16_t, uint8_t>> mux = {{0x2001, 0}, {0x2002, 0}, {0x2006, 0}, {0x2007, 0}, {0x2008, 0}, {0x2009, 0}, {0x1000, 0}, {0x1018, 1}, {0x3000, 0}, {0x2001, 1}};
@@ -160,11 +161,30 @@ void case_impl(Ctx &c, bool clientrec, bool refusing = false) {
     VLOG(c, "probe %u on %04X:00", pr, o.idx);
     if (pr < 5) {   // uploads: segmented/expedited (0,2,3,4) and block (1)
       std::vector<uint8_t> want = w.content(o);
-      SdoRes r = pr == 1 ? cl.upload_blk(o.idx, o.sub, (uint8_t)(1 + plan.next() % 127), 2, true, &want) : cl.upload(o.idx, o.sub);
+      uint8_t pbs = (uint8_t)(1 + plan.next() % 127); std::vector<Frame> fa, fb; cl.rsplog = &fa; const size_t ppos = c.t.pos;
+      SdoRes r = pr == 1 ? cl.upload_blk(o.idx, o.sub, pbs, 2, true, &want) : cl.upload(o.idx, o.sub);
+      cl.rsplog = nullptr;
       CHECK(c, !r.aborted, "recovery-upload-served", "after the junk history and %s, a clean upload of %04X:00 was refused with %08X", by_reset ? "an NMT reset communication" : "a client abort", o.idx, r.code);
       CHECK(c, r.announced == want.size() && r.data == want, "recovery-upload-data", "after the junk history and %s, a clean upload of %04X:00 delivered %zu bytes (announced %u) that differ from the object's %zu bytes%s", by_reset ? "an NMT reset communication" : "a client abort",
             o.idx, r.data.size(), r.announced, want.size(), r.data.size() == want.size() ? " (data left over from an earlier transfer?)" : "");
       c.ops += r.requests;
+      // "data left over from an earlier one" also means the bytes a client does not look at: the same clean upload from a node that has no history - same
+      // dictionary, same object contents, freshly initialised - must be answered with the same frames, byte for byte
+      if (!r.aborted && p == 0) {
+        size_t keep = c.t.pos; c.t.pos = tape0; Refuser keepref = g_ref;
+        { Sim sb(c); World wb(sb); build(sb, wb);
+          for (size_t i = 0; i < s.blocks.size() && i < sb.blocks.size(); i++) if (s.blocks[i].storage && s.blocks[i].n == sb.blocks[i].n) memcpy(sb.blocks[i].p, s.blocks[i].p, s.blocks[i].n);
+          bool lg = c.logging; c.logging = false; wb.finish(); sb.nodeid = s.nodeid;
+          SdoClient cb(sb, wb.req[target], wb.rsp[target]); cb.rsplog = &fb; c.t.pos = ppos;   // the client takes the same decisions (acknowledge positions, block sizes) as in the first run
+          std::vector<uint8_t> want2 = wb.content(*wb.lookup(o.idx, 0));
+          SdoRes rb = pr == 1 ? cb.upload_blk(o.idx, o.sub, pbs, 2, true, &want2) : cb.upload(o.idx, o.sub); (void)rb;
+          c.logging = lg; }
+        g_sim = &s; c.t.pos = keep; g_ref = keepref;
+        bool same = fa.size() == fb.size(); size_t at = 0; for (; same && at < fa.size(); at++) if (fa[at].dlc != fb[at].dlc || memcmp(fa[at].d, fb[at].d, 8)) { same = false; break; }
+        CHECK(c, same, "recovery-upload-data", "after the junk history and %s, the clean upload of %04X:00 was answered with other frames than the same upload from a node without history (same dictionary and contents): response %zu is %s, there %s - bytes left over from an earlier transfer", by_reset ? "an NMT reset communication" : "a client abort",
+              o.idx, at, at < fa.size() ? fa[at].str().c_str() : "missing", at < fb.size() ? fb[at].str().c_str() : "missing");
+        c.cls("upload-compared-with-a-node-without-history");
+      }
     } else {        // downloads: segmented (5), block (6), expedited int (7), expedited/segmented small domain (8)
       uint32_t plen = pr == 7 ? 4 : pr == 8 ? 1 + (uint32_t)(plan.next() % o.size) : (plan.next() % 2 ? o.size : 1 + (uint32_t)(plan.next() % o.size));
       std::vector<uint8_t> pay(plen); SplitMix r(plan.next()); for (auto &b : pay) b = (uint8_t)r.next();
